@@ -136,3 +136,6 @@ Print Assumptions C16_phase_unrepaired_refuted.
 (* hypotheses are satisfiable *)
 Example C16_ex_bins : (0 < 2 * 3 < 16)%nat /\ (2 * 8 <= 16)%nat /\ (0 < 2 * 2 < 5)%nat /\ (2 * 2 <= 5)%nat /\ 0 <= 1 /\ 0 < 20 / 1000000.
 Proof. repeat split; try lia; lra. Qed.
+(* flattop (order 4) at bin 3 of 16 samples *)
+Example C16_ex_window : (21557895 / 100000000 <> 0) /\ (4 < 2 * 3)%nat /\ (2 * 3 + 4 < 16)%nat /\ (4 < 16)%nat.
+Proof. repeat split; try lia; lra. Qed.
